@@ -99,9 +99,11 @@ impl Part {
     /// (requested cases, wall budget of the batch)
     fn budget(&self, tier: Tier) -> (u64, Duration) {
         let (q, t) = match self {
-            Part::C15d => (2_500_000, 6_000_000),
-            Part::C13d => (400_000, 8_000_000),
-            Part::C02d => (400_000, 5_000_000),
+            // Sized on a 16-core machine that other builds were loading at
+            // the same time: quick 7..25 s, thorough 1..6 min per part.
+            Part::C15d => (2_500_000, 4_000_000),
+            Part::C13d => (400_000, 5_000_000),
+            Part::C02d => (400_000, 3_500_000),
             Part::C19p => (24_000_000, 150_000_000),
         };
         match tier {
